@@ -2,7 +2,7 @@
 Python representation:  bytes -> atom, int -> integer, list/tuple -> list.  str is accepted as an atom (UTF-8)."""
 import re
 
-_SYM = re.compile(rb'^[A-Za-z_][A-Za-z0-9_.\-]*$')
+_SYM = re.compile(rb'[A-Za-z_][A-Za-z0-9_.\-]*\Z')
 
 
 def dumps(x):
